@@ -106,6 +106,7 @@ class FakeKernel32:
         self.nread = 0
         self.encoded = []
         self.decoded_ok = True
+        self.hold = False  # grouped mode: nothing is delivered until the group of operations is complete
 
     def CreateFileW(self, path, *a):
         self.sim.yield_point("w:create")
@@ -118,7 +119,7 @@ class FakeKernel32:
     def ReadDirectoryChangesW(self, handle, buf_ref, buflen, subtree, flt, nbytes_ref, ov, cr):
         s = self.sim
         s.yield_point("w:read")
-        s.block(lambda: bool(self.pending) or self.cancelled or self.root_gone, why="rdcw")
+        s.block(lambda: ((bool(self.pending) or self.root_gone) and not self.hold) or self.cancelled, why="rdcw")
         if self.cancelled:
             e = OSError("aborted")
             e.winerror = 995
@@ -173,6 +174,7 @@ class FakeFSEvents:
         self.next_id = 1
         self.cuts = latency_cuts
         self.flushes = 0
+        self.hold = False
 
     def add_watch(self, emitter, watch, callback, paths):
         self.callback = callback
@@ -193,7 +195,7 @@ class FakeFSEvents:
     def read_events(self, emitter):
         s = self.sim
         while True:
-            s.block(lambda: bool(self.batches) or self.stopped, why="fsevents-runloop")
+            s.block(lambda: (bool(self.batches) and not self.hold) or self.stopped, why="fsevents-runloop")
             if self.stopped and not self.batches:
                 return
             b = self.batches.pop(0)
@@ -435,8 +437,14 @@ class ForeignRun(FsRun):
     def exec_op(self, op, pre=False):
         sim = prims.cur_sim()
         if pre or op[0] == "drain":
+            peer = self.fse if self.fse is not None else self.k32
             if op[0] == "drain" and self.fse is not None:
                 self.fse.flush()
+            if op[0] == "drain" and peer is not None and self.case.get("grouped"):
+                peer.hold = False  # the group is complete: deliver what has accumulated, then hold again
+                r = super().exec_op(op, pre)
+                peer.hold = True
+                return r
             return super().exec_op(op, pre)
         # inodes of everything the operation may mention, read before the real calls
         m = self.model
@@ -494,25 +502,39 @@ class C20(Scenario):
         # no replace-renames: generate, then drop renames onto existing entries
         # the foreign emitters install no per-directory watches, so the directory pacing condition is not needed for
         # "nothing real goes unreported": 40% of the racing runs ignore it (only the missing-entries oracle applies)
-        unpaced = (not paced) and cfg.random() < 0.4
+        grouped = (not paced) and cfg.random() < 0.35  # paced histories whose notifications are delivered per group of operations
+        unpaced = (not paced) and not grouped and cfg.random() < 0.6
         ops_all = fm.gen_ops(rng, m, rng.randrange(1, 10), weights=w, paced=not unpaced, drain_each=paced, allow=self.ALLOW)
         mm = fm.Model()
         for op in pre:
             fm.apply(mm, op)
         ops = []
+        vacated = set()  # grouped mode: a name vacated inside a group is not re-used before the group is delivered
         for op in ops_all:
             if op[0] == "rename" and op[2] in mm.t:
                 continue
             if not fm.valid(mm, op, paced=False):
                 continue
+            if grouped:
+                if op[0] == "drain":
+                    vacated.clear()
+                target = {"mkfile": 1, "mkdir": 1, "rename": 2, "movein_file": 2, "movein_tree": 2}.get(op[0])
+                new_paths = [op[target]] if target else []
+                if op[0] == "makedirs":
+                    new_paths = [op[1] + "/" + "/".join(op[2][: i + 1]) for i in range(len(op[2]))]
+                if any(p in vacated or any(fm.is_under(p, v) for v in vacated) for p in new_paths):
+                    continue
+                if op[0] in ("rename", "moveout", "unlink", "rmdir", "rmtree"):
+                    vacated.add(op[1])
+                    vacated.update(mm.subtree(op[1]))
             fm.apply(mm, op)
             ops.append(op)
         osk = ["windows", "macos"][idx % 2]
         if rng.random() < 0.12:
             ops += [["drain"], ["rmroot"]]
-        case = {"os": osk, "pre": pre, "ops": ops, "paced": paced, "unpaced": unpaced,
+        case = {"os": osk, "pre": pre, "ops": ops, "paced": paced, "unpaced": unpaced, "grouped": grouped,
                 "watch": {"recursive": cfg.random() < 0.75, "root_kind": "str", "spelling": "abs"},
-                "cuts": [cfg.choice([0, 1, 2, 3]) for _ in range(3)], "sticky_created": cfg.random() < 0.4, "parent_modified": cfg.random() < 0.5, "flush_each": paced or cfg.random() < 0.5,
+                "cuts": [cfg.choice([0, 1, 2, 3]) for _ in range(3)], "sticky_created": cfg.random() < 0.4, "parent_modified": cfg.random() < 0.5, "flush_each": paced or (not grouped and cfg.random() < 0.5),
                 "sched": draw_sched(cfg, line=False, pct_k=800, step_cap=300_000, horizon=3600, pct_share=0.2)}
         return case
 
@@ -543,6 +565,8 @@ class C20(Scenario):
             obs.schedule(run.handlers[0], run.watch_path(), recursive=run.recursive)
             obs.start()
             sim.wait_quiescent()
+            if case.get("grouped"):
+                (run.fse if run.fse is not None else run.k32).hold = True
             for op in case["ops"]:
                 if not fm.valid(run.model, op, paced=False):
                     continue
@@ -582,6 +606,11 @@ class C20(Scenario):
             got = {p: k for p, k in got.items() if fm.parent(p) == "root"}
         # both emitters learn the File/Dir flavour from the file system at processing time (os.path.isdir / stale flags):
         # when operations race ahead of the emitter the flavour may be stale, so kinds are compared on paced runs only
+        if run.case.get("grouped"):
+            # the group was complete when the emitter saw it: every path must be right, flavours may be stale inside a group
+            if set(got) == set(real):
+                return None
+            return {"phantom": {p: k for p, k in got.items() if p not in real}, "missing": {p: k for p, k in real.items() if p not in got}}
         if run.case["paced"]:
             if got == real:
                 return None
